@@ -252,21 +252,22 @@ func c04R3(p *core.Prog, r *core.Report) {
 
 func c04R4(p *core.Prog, r *core.Report) {
 	const rule = "C04/R4"
-	r.Rule(rule, "in LockDB.Lock a request is granted while the key is held and has queued waiters only with the priority flag and doCheckLockWaitPriority==true", 2)
+	r.Rule(rule, "in LockDB.Lock a request is granted while the key is held and has queued waiters only with the priority flag and a priority strictly above every waiter (no wait queue, or MaxPriority() < request priority), whether that test is written inline or in doCheckLockWaitPriority", 2)
 	fn := mustFunc(p, r, "server.(*LockDB).Lock")
-	prio := mustFunc(p, r, "server.(*LockDB).doCheckLockWaitPriority")
+	prio := p.Func("server.(*LockDB).doCheckLockWaitPriority") // optional: may have been inlined into Lock
 	doLock := mustFunc(p, r, "server.(*LockDB).doLock")
-	if fn == nil || prio == nil || doLock == nil {
+	if fn == nil || doLock == nil {
 		return
 	}
 	cmd := fn.Params[2].Name()
 	ex := core.NewExplorer(p, core.Hooks{
 		Inline: func(x *core.X, c *ssa.Function) bool {
-			return c == prio || c == doLock || ((underFrame(x, doLock) || underFrame(x, prio)) && pureBoolHelper(p, c))
+			return (prio != nil && c == prio) || c == doLock || ((underFrame(x, doLock) || (prio != nil && underFrame(x, prio))) && pureBoolHelper(p, c))
 		},
 		Track: func(x *core.X, a core.Atom) bool {
 			l, rr := core.Plain(a.L), core.Plain(a.R)
-			return strings.HasSuffix(l, ".waited") || strings.HasSuffix(rr, ".locked") || strings.HasSuffix(l, ".locked") || strings.Contains(l, cmd+".TimeoutFlag & 16)")
+			return strings.HasSuffix(l, ".waited") || strings.HasSuffix(rr, ".locked") || strings.HasSuffix(l, ".locked") || strings.Contains(l, ".TimeoutFlag & 16)") ||
+				strings.HasSuffix(l, ".waitLocks") || strings.HasPrefix(l, "MaxPriority(") || strings.HasPrefix(rr, "MaxPriority(")
 		},
 		InlineReturn: func(x *core.X, c *ssa.Function, rets []core.Expr) {
 			if c == prio && len(rets) == 1 {
@@ -308,7 +309,7 @@ func c04R4(p *core.Prog, r *core.Report) {
 				r.Hold(rule, key, x.Pos(), "key not held on this path (newcomer is not overtaking a held key's queue)")
 			case waitedFalse:
 				r.Hold(rule, key, x.Pos(), "no waiters")
-			case x.Get("prio") == "true" && x.Passed("("+cmd+".TimeoutFlag & 16) != 0"):
+			case c04Outranks(x, cmd):
 				r.Hold(rule, key, x.Pos(), "priority flag set and strictly higher than every waiter")
 			default:
 				_ = waitedKnown
@@ -322,13 +323,31 @@ func c04R4(p *core.Prog, r *core.Report) {
 	}
 }
 
+// c04Outranks: the path tested the priority flag set and (no wait queue, or
+// the queue's maximum priority strictly below the request's).
+func c04Outranks(x *core.X, cmd string) bool {
+	flag, strict := false, false
+	for h := range x.St.Hist {
+		switch {
+		case strings.HasSuffix(h, ".TimeoutFlag & 16) != 0") && strings.Contains(h, cmd+"."):
+			flag = true
+		case strings.HasSuffix(h, ".waitLocks == nil"):
+			strict = true
+		case strings.HasPrefix(h, "MaxPriority(") && strings.Contains(h, " < ") && !strings.Contains(h, " <= ") && strings.HasSuffix(h, ".Rcount"):
+			strict = true
+		}
+	}
+	return flag && strict
+}
+
 func c04R5(p *core.Prog, r *core.Report) {
 	const rule = "C04/R5"
-	r.Rule(rule, "true-paths of doCheckLockWaitPriority entail waitLocks==nil or request priority strictly greater than MaxPriority()", 2)
-	fn := mustFunc(p, r, "server.(*LockDB).doCheckLockWaitPriority")
+	fn := p.Func("server.(*LockDB).doCheckLockWaitPriority")
 	if fn == nil {
+		// the predicate was inlined into Lock: R4 checks its content on the path
 		return
 	}
+	r.Rule(rule, "true-paths of doCheckLockWaitPriority entail waitLocks==nil or request priority strictly greater than MaxPriority()", 2)
 	mgr, lk := fn.Params[1].Name(), fn.Params[2].Name()
 	ex := core.NewExplorer(p, core.Hooks{
 		Track: func(x *core.X, a core.Atom) bool { return true },
